@@ -2,9 +2,11 @@ package main
 
 import (
 	"fmt"
+	"reflect"
 	"strings"
 
 	"github.com/db47h/decimal"
+	dctx "github.com/db47h/decimal/context"
 	verifrt "github.com/db47h/decimal/verifrt"
 )
 
@@ -276,7 +278,15 @@ func (o *oracleC09) after(c *stepCtx) *ViolationRec {
 // C10: independence from aliasing and from the receiver's past (shadow execution).
 
 type oracleC10 struct {
-	cnt map[string]int
+	cnt        map[string]int
+	shCtx      *dctx.Context
+	preLatched bool
+}
+
+// ctxLatched reports whether the context holds a pending error (read-only peek).
+func ctxLatched(c *dctx.Context) bool {
+	f := reflect.ValueOf(c).Elem().FieldByName("err")
+	return f.IsValid() && f.Kind() == reflect.Interface && !f.IsNil()
 }
 
 func (o *oracleC10) monitor() func(task, op int, site uint32) string { return nil }
@@ -306,6 +316,12 @@ func (o *oracleC10) before(c *stepCtx) {
 		if p := z.Prec(); p != 0 {
 			z2.SetPrec(p)
 		}
+	}
+	if c.w.Ctx != nil {
+		cc := *c.w.Ctx // same precision, mode and pending error as the live context
+		sw.Ctx = &cc
+		o.shCtx = &cc
+		o.preLatched = ctxLatched(c.w.Ctx)
 	}
 	n := len(c.w.V)
 	sw.V[n] = z2
@@ -365,6 +381,18 @@ func (o *oracleC10) after(c *stepCtx) *ViolationRec {
 	}
 	if live.Failed {
 		return nil // "valid but not defined"
+	}
+	if strings.HasPrefix(op.Name, "c.") && c.w.Ctx != nil && o.shCtx != nil {
+		ll, sl := ctxLatched(c.w.Ctx), ctxLatched(o.shCtx)
+		if ll != sl {
+			return fail("latch-depends-on-aliasing-or-history", "live context latched=%v, same call on fresh memory latched=%v", ll, sl)
+		}
+		if ll {
+			// either this call produced a NaN (the receiver's value is documented as
+			// undefined) or an error was already pending (the call is a no-op by
+			// definition and leaves the receiver's previous contents in place)
+			return nil
+		}
 	}
 	lz, sz := c.post[op.Z], c.shObs
 	if lz.String()+lz.Digits != sz.String()+sz.Digits {
